@@ -891,4 +891,165 @@ theorem init_clean (ov : Bool) : Clean (World.init ov) :=
     numsBelow := by intro r hr; rw [init_recs] at hr; cases hr
     ignoreOff := rfl, expectedZero := rfl }
 
+/-! ### the post action on any state that represents a history state -/
+
+theorem condAtPost_verdictAt {f0 : Nat} {w : World} {h : HState} (s : Sim f0 w h) : condAtPost w = verdictAt h := by
+  rw [condAtPost_eq s]; rfl
+
+theorem leakFail_post {f0 : Nat} {w : World} {h : HState} (s : Sim f0 w h) (h1 : w.leakFail = none)
+    (h2 : w.det.out = []) :
+    (postTestAction w).leakFail =
+      if w.overloads && verdictAt h then
+        some { entries := w.det.recs.filter (fun r => r.period == .checking), total := h.mine.length }
+      else none := by
+  cases hov : w.overloads with
+  | false => rw [(post_no_overloads _ hov).1, h1]; simp
+  | true =>
+    rw [post_leakFail _ hov, condAtPost_verdictAt s, h1, h2, leaksAtPost_eq s]
+    simp
+
+theorem failures_post {f0 : Nat} {w : World} {h : HState} (s : Sim f0 w h) :
+    (postTestAction w).failures = f0 + h.own + (if w.overloads && verdictAt h then 1 else 0) := by
+  cases hov : w.overloads with
+  | false => rw [(post_no_overloads _ hov).2, s.fails]; simp
+  | true =>
+    rw [post_failures _ hov, condAtPost_verdictAt s, s.fails]
+    simp only [Bool.true_and]
+    split <;> omega
+
+theorem post_warned (w : World) :
+    (postTestAction w).warned =
+      (w.warned || (condAtPost w && !w.overloads &&
+        warnCond w.plg.ignoreAll w.plg.expected (leaksAtPost w) w.plg.failureCount w.failures)) := by
+  simp only [postTestAction, postSteps, List.foldl, pstep, verdictStep, condAtPost, leaksAtPost,
+    Detector.stopChecking, stopCheckingSteps, Detector.dsteps, Detector.dstep, totalMemoryLeaks_checking]
+  cases hov : w.overloads <;>
+    cases hc : failCond w.plg.ignoreAll w.plg.expected
+      (List.filter (fun r => r.period == Period.checking) w.det.recs).length w.plg.failureCount w.failures <;>
+    cases hw : warnCond w.plg.ignoreAll w.plg.expected
+      (List.filter (fun r => r.period == Period.checking) w.det.recs).length w.plg.failureCount w.failures <;>
+    simp [hov, hc, hw]
+
+/-! ### constructor / destructor of the test object: memory operations inside the window -/
+
+theorem sim_execMem {f0 : Nat} {w : World} {h : HState} (s : Sim f0 w h) (c : Cmd) :
+    Sim f0 (execMem w c) (hMem h c) := by
+  cases c with
+  | alloc id size => exact sim_doAlloc s id size
+  | free id => exact sim_doFree s id
+  | realloc id newId size => exact sim_doRealloc s id newId size
+  | reallocFail id size => simp only [execMem, execCmd_reallocFail, hMem]; exact s
+  | envSeq n => exact sim_execCmd s (.envSeq n)
+  | expectLeaks n => exact s
+  | ignoreLeaks => exact s
+  | fail => exact s
+
+theorem sim_runMem {f0 : Nat} : ∀ (cs : List Cmd) {w : World} {h : HState}, Sim f0 w h →
+    Sim f0 (runMem w cs) (hRunMem h cs)
+  | [], _, _, s => s
+  | c :: cs, _, _, s => sim_runMem cs (sim_execMem s c)
+
+theorem frame_execMem (w : World) (c : Cmd) : Frame w (execMem w c) := by
+  cases c with
+  | alloc id size => exact frame_doAlloc w id size
+  | free id => exact frame_doFree w id
+  | realloc id newId size => exact frame_doRealloc w id newId size
+  | reallocFail id size => exact frame_execCmd w _
+  | envSeq n => exact frame_execCmd w _
+  | _ => exact Frame.refl w
+
+theorem frame_runMem : ∀ (cs : List Cmd) (w : World), Frame w (runMem w cs)
+  | [], w => Frame.refl w
+  | c :: cs, w => (frame_execMem w c).trans (frame_runMem cs (execMem w c))
+
+theorem numInv_execMem {s0 : Nat} {w : World} (h : NumInv s0 w) (c : Cmd) : NumInv s0 (execMem w c) := by
+  cases c with
+  | alloc id size => exact numInv_doAlloc h id size
+  | free id => exact numInv_doFree h id
+  | realloc id newId size => exact numInv_doRealloc h id newId size
+  | reallocFail id size => exact numInv_execCmd h (.reallocFail id size)
+  | envSeq n => exact numInv_execCmd h (.envSeq n)
+  | expectLeaks n => exact h
+  | ignoreLeaks => exact h
+  | fail => exact h
+
+theorem numInv_runMem {s0 : Nat} : ∀ (cs : List Cmd) {w : World}, NumInv s0 w → NumInv s0 (runMem w cs)
+  | [], _, h => h
+  | c :: cs, _, h => numInv_runMem cs (numInv_execMem h c)
+
+/-- the state just before the post action of a test with an allocating test object -/
+def atDtorEnd (w : World) (t : TestObj) : World :=
+  runMem (runBody (runMem (preTestAction (atStart w t.test)) t.ctor) t.test) t.dtor
+
+/-- the regenerated call order of `runOneTestInCurrentProcess`, unfolded: pre actions, constructor,
+    setup/body/teardown, destructor, post actions -/
+theorem runTestObj_eq (w : World) (t : TestObj) : runTestObj w t = postTestAction (atDtorEnd w t) := rfl
+
+theorem sim_atDtorEnd {w : World} (hc : Clean w) (t : TestObj) :
+    Sim w.failures (atDtorEnd w t) (atEndObj w.liveIds t) := by
+  have hs := sim_pre (clean_atStart hc t.test) (atStart_obs w t.test).2.2.2
+  rw [failures_atStart, liveIds_atStart] at hs
+  exact sim_runMem t.dtor (sim_runBody (sim_runMem t.ctor hs) t.test)
+
+theorem atDtorEnd_obs (w : World) (t : TestObj) :
+    (atDtorEnd w t).leakFail = none ∧ (atDtorEnd w t).warned = false ∧
+    (atDtorEnd w t).overloads = w.overloads ∧ (atDtorEnd w t).det.out = [] := by
+  have h : Frame (preTestAction (atStart w t.test)) (atDtorEnd w t) :=
+    ((frame_runMem t.ctor _).trans (frame_runBody _ t.test)).trans (frame_runMem t.dtor _)
+  have h0 := atStart_obs w t.test
+  refine ⟨h.2.1.trans ?_, h.2.2.1.trans ?_, h.2.2.2.1.trans ?_, h.1.trans ?_⟩
+  · rw [preTestAction_eq]; exact h0.1
+  · rw [preTestAction_eq]; exact h0.2.1
+  · rw [preTestAction_eq]; exact h0.2.2.1
+  · rw [preTestAction_eq]
+
+theorem numInv_atDtorEnd {w : World} (hc : Clean w) (t : TestObj) :
+    NumInv (atStart w t.test).det.seq (atDtorEnd w t) :=
+  numInv_runMem t.dtor (numInv_runBody (numInv_runMem t.ctor (numInv_pre (clean_atStart hc t.test))) t.test)
+
+theorem leakFail_runTestObj {w : World} (hc : Clean w) (t : TestObj) :
+    (runTestObj w t).leakFail =
+      if w.overloads && shouldFailObj w.liveIds t then
+        some { entries := (atDtorEnd w t).det.recs.filter (fun r => r.period == .checking),
+               total := (blocksOfObj w.liveIds t).length }
+      else none := by
+  have ho := atDtorEnd_obs w t
+  rw [runTestObj_eq, leakFail_post (sim_atDtorEnd hc t) ho.1 ho.2.2.2, ho.2.2.1]
+  rfl
+
+theorem failures_runTestObj {w : World} (hc : Clean w) (t : TestObj) :
+    (runTestObj w t).failures =
+      w.failures + (atEndObj w.liveIds t).own + (if w.overloads && shouldFailObj w.liveIds t then 1 else 0) := by
+  rw [runTestObj_eq, failures_post (sim_atDtorEnd hc t), (atDtorEnd_obs w t).2.2.1]
+  rfl
+
+theorem clean_runTestObj {w : World} (hc : Clean w) (t : TestObj) : Clean (runTestObj w t) := by
+  rw [runTestObj_eq]
+  have hn := numInv_atDtorEnd hc t
+  refine { noChecking := ?_, notChecking := by rw [post_cur]; decide, numsBelow := ?_,
+           ignoreOff := (post_flags _).1, expectedZero := (post_flags _).2 }
+  · intro r hr
+    rw [post_recs, List.mem_map] at hr
+    obtain ⟨r0, _, rfl⟩ := hr
+    exact demoteRec_period r0
+  · intro r hr
+    rw [post_recs, List.mem_map] at hr
+    obtain ⟨r0, hr0, rfl⟩ := hr
+    rw [post_seq, demoteRec_num]
+    exact hn.below r0 hr0
+
+theorem liveIds_runTestObj {w : World} (hc : Clean w) (t : TestObj) :
+    (runTestObj w t).liveIds = liveAfterTestObj w.liveIds t := by
+  rw [runTestObj_eq]
+  unfold World.liveIds
+  rw [post_recs, List.map_map]
+  have : ((fun r : Rec => r.id) ∘ Detector.demoteRec) = (fun r : Rec => r.id) := by
+    funext r; exact demoteRec_id r
+  rw [this]
+  exact (sim_atDtorEnd hc t).ids
+
+theorem clean_setOverloads {w : World} (hc : Clean w) (b : Bool) : Clean (setOverloads w b) :=
+  { noChecking := hc.noChecking, notChecking := hc.notChecking, numsBelow := hc.numsBelow,
+    ignoreOff := hc.ignoreOff, expectedZero := hc.expectedZero }
+
 end LeakPlugin
